@@ -254,3 +254,47 @@ func verifLemma_C03_merge_empty() {
 	verifrt.Assert(!m.Next(), "empty-streams")
 	verifrt.Assert(!m.Next(), "stays-empty")
 }
+
+// ---- C19: expressions through the wire format (bounded shape) ---------------------------------
+// A call whose function is a symbol and whose arguments are an int, a lambda over a symbol,
+// a string, a bool, a feature ID and nil - values, the pipelined flag and every source
+// position symbolic (positions within int32, as the wire format stores them) - converted
+// by the real ToProto / ExpressionFromProto: the result equals the original, every node has
+// its source positions back, and converting the result again gives an equal expression.
+func verifHelper_C19_pos(v int) bool { return 0 <= v && v < 1<<31 }
+
+func verifLemma_C19_call_round_trip(n int, s string, t bool, piped bool, idv uint64, b0, e0, b1, e1, b2, e2, b3, e3 int) {
+	verifrt.Assume(verifHelper_C19_pos(b0) && verifHelper_C19_pos(e0) && verifHelper_C19_pos(b1) && verifHelper_C19_pos(e1))
+	verifrt.Assume(verifHelper_C19_pos(b2) && verifHelper_C19_pos(e2) && verifHelper_C19_pos(b3) && verifHelper_C19_pos(e3))
+	lambda := LambdaExpression{Args: []string{"x"}, Expression: Expression{AnyExpression: SymbolExpression("x"), Begin: b3, End: e3}}
+	id := FeatureID{Type: FeatureTypeArea, Namespace: NamespaceOSMWay, Value: idv}
+	e := Expression{Name: "top", Begin: b0, End: e0, AnyExpression: CallExpression{
+		Function: Expression{AnyExpression: SymbolExpression("add"), Begin: b1, End: e1},
+		Args: []Expression{
+			{AnyExpression: IntExpression(n), Begin: b2, End: e2},
+			{AnyExpression: lambda},
+			{AnyExpression: StringExpression(s)},
+			{AnyExpression: BoolExpression(t)},
+			{AnyExpression: FeatureIDExpression(id)},
+			{AnyExpression: NilExpression{}},
+		},
+		Pipelined: piped,
+	}}
+	p, err := e.ToProto()
+	verifrt.Assert(err == nil, "converts-to-proto")
+	back, err := ExpressionFromProto(p)
+	verifrt.Assert(err == nil, "converts-back")
+	verifrt.Assert(back.Equal(e) && e.Equal(back), "equal-expression")
+	verifrt.Assert(back.Name == "top" && back.Begin == b0 && back.End == e0, "root-name-and-positions")
+	c, ok := back.AnyExpression.(CallExpression)
+	verifrt.Assert(ok && len(c.Args) == 6 && c.Pipelined == piped, "call-shape")
+	verifrt.Assert(c.Function.Begin == b1 && c.Function.End == e1 && c.Args[0].Begin == b2 && c.Args[0].End == e2, "child-positions")
+	l, ok := c.Args[1].AnyExpression.(LambdaExpression)
+	verifrt.Assert(ok && len(l.Args) == 1 && l.Args[0] == "x" && l.Expression.Begin == b3 && l.Expression.End == e3, "lambda-body-positions")
+	v, ok := c.Args[0].AnyExpression.(IntExpression)
+	verifrt.Assert(ok && int(v) == n, "int-value")
+	p2, err := back.ToProto()
+	verifrt.Assert(err == nil, "converts-again")
+	again, err := ExpressionFromProto(p2)
+	verifrt.Assert(err == nil && again.Equal(back) && again.Begin == b0 && again.End == e0, "second-conversion-changes-nothing")
+}
